@@ -1801,6 +1801,7 @@ pub struct VerifSub {
     pub fail_count: u8,
     pub max_seen_attr_change_id: u64,
     pub max_seen_event_number: u64,
+    pub resumed_at: u64,
 }
 
 /// One item of the private table state, as visited by [`Subscriptions::verif_visit`].
@@ -1841,6 +1842,7 @@ impl Subscription {
             fail_count: self.fail_count,
             max_seen_attr_change_id: self.max_seen_attr_change_id,
             max_seen_event_number: self.max_seen_event_number,
+            resumed_at: self.resumed_at.as_ticks(),
         }
     }
 }
